@@ -6,6 +6,7 @@ import (
 	"reflect"
 	"runtime/debug"
 	"strings"
+	"sync"
 	"sync/atomic"
 	"time"
 
@@ -73,6 +74,7 @@ type Context struct {
 	behaviorStack *BehaviorStack                     // 行为栈
 	mailbox       vivid.Mailbox                      // 邮箱
 	children      map[vivid.ActorPath]vivid.ActorRef // 懒加载的子 Actor 引用
+	childrenLock  sync.RWMutex                       // 保护 children：根上下文的 ActorOf 由任意协程调用，而子 Actor 终止的移除发生在自身邮箱协程
 	envelop       vivid.Envelop                      // 当前 ActorContext 的消息
 	state         int32                              // 状态
 	zombie        bool                               // 是否为僵尸状态
@@ -176,10 +178,12 @@ func (c *Context) ActorOf(actor vivid.Actor, options ...vivid.ActorOption) (vivi
 		return nil, vivid.ErrorActorAlreadyExists.WithMessage(childCtx.Ref().GetPath())
 	}
 
+	c.childrenLock.Lock()
 	if c.children == nil {
 		c.children = make(map[vivid.ActorPath]vivid.ActorRef)
 	}
 	c.children[childCtx.Ref().GetPath()] = childCtx.Ref()
+	c.childrenLock.Unlock()
 
 	c.tell(true, childCtx.Ref(), new(vivid.OnLaunch))
 	c.Logger().Debug("actor spawned", log.String("path", childCtx.Ref().GetPath()))
@@ -552,7 +556,7 @@ func (c *Context) doKill(message *vivid.OnKill, behavior vivid.Behavior) {
 	c.system.removeFuturesByAgentPath(c.ref.GetPath(), vivid.ErrorActorDeaded)
 
 	// 等待所有子 Actor 结束，假设是重启，子 Actor 不应该跟随重启，应该由父节点决定是否重启
-	for _, child := range c.children {
+	for _, child := range c.Children() {
 		c.Logger().Debug("notify child kill", log.String("path", child.GetPath()))
 		c.Kill(child, message.Poison, message.Reason)
 	}
@@ -645,6 +649,8 @@ func (c *Context) Kill(ref vivid.ActorRef, poison bool, reason ...string) {
 }
 
 func (c *Context) Children() vivid.ActorRefs {
+	c.childrenLock.RLock()
+	defer c.childrenLock.RUnlock()
 	children := make(vivid.ActorRefs, 0, len(c.children))
 	for _, child := range c.children {
 		children = append(children, child)
